@@ -35,9 +35,12 @@ pub fn gen_sparse(r: &mut Rng) -> Vec<P> {
 }
 
 /// a random prefix-free tree over `PATHS`
-pub fn gen_tree(r: &mut Rng, conflicts: bool) -> GenTree {
+pub fn gen_tree(r: &mut Rng, conflicts: bool) -> GenTree { gen_tree_over(r, PATHS, conflicts) }
+
+/// a random prefix-free tree over the given path alphabet
+pub fn gen_tree_over(r: &mut Rng, paths: &[&str], conflicts: bool) -> GenTree {
     let mut t = GenTree::new();
-    for s in PATHS {
+    for s in paths {
         if r.chance(1, 2) { continue; }
         let q = p(s);
         if t.keys().any(|k| is_prefix(k, &q) || is_prefix(&q, k)) { continue; }
@@ -216,9 +219,124 @@ fn directed(out: &mut Out) {
     oracle_snapshot(out, &r1, &i0);
 }
 
+/// Scenario family "an ignored directory full of tracked files" (strengthened after seed C23).
+/// Below an ignored directory the snapshot does not list the directory but stats the tracked paths one
+/// by one (`visit_tracked_files`), in file-state order; what happens to one of them must not influence
+/// the others.  Several files below one directory get tracked (first snapshot without ignore rules, or
+/// a checkout), then the directory becomes ignored (base pattern or a `.gitignore` next to it) and
+/// every gap between two snapshots holds *several* edits of those tracked paths: replaced by an
+/// (empty / non-empty) directory, modified in place, chmod'ed, deleted, replaced by a symlink,
+/// restored, plus new (ignored, untracked) files next to them.
+fn ignored_dir_family(cfg: &Cfg, out: &mut Out) {
+    const DIRS: &[(&str, &[&str], &str, &[&str])] = &[
+        // (ignored directory, base patterns that ignore it, directory of a .gitignore, its patterns)
+        ("ig", &["/ig/", "ig/", "ig"], "", &["/ig/", "ig/"]),
+        ("d/ig", &["ig/", "/d/ig/", "ig"], "d", &["/ig/", "ig/"]),
+        ("d/e", &["/d/e/"], "d", &["e/", "/e/"]),
+    ];
+    const NAMES: &[&str] = &["a", "c", "b", "b/c", "b/d", "k/m", "q", "z"];
+    let mut r = cfg.rng(2301);
+    let workspaces = cfg.n(100, 600);
+    for w in 0..workspaces {
+        // the first workspaces are minimal: two or three tracked files, two edits per gap
+        let small = w < 20;
+        let mut env = Env::new();
+        let (dir, base_pats, gi_dir, gi_pats) = *r.pick(DIRS);
+        let dirp = p(dir);
+        // the tracked files of the directory (prefix free, at least two) and a few outside
+        let mut gt = GenTree::new();
+        while gt.len() < 2 {
+            for nm in if small { &NAMES[..3] } else { NAMES } {
+                if r.chance(1, 2) { continue; }
+                let q = p(&format!("{dir}/{nm}"));
+                if gt.keys().any(|k| is_prefix(k, &q) || is_prefix(&q, k)) { continue; }
+                gt.insert(q, GenV::File(r.pick(CONTENTS).as_bytes().to_vec(), r.chance(1, 4)));
+            }
+        }
+        for s in ["f", "y", "h/i"] { if r.chance(1, 2) { gt.insert(p(s), GenV::File(r.pick(CONTENTS).as_bytes().to_vec(), false)); } }
+        if r.chance(1, 2) {
+            let t = env.build_tree(&gt);
+            env.check_out(out, &t);
+        } else {
+            for (q, v) in &gt { if let GenV::File(c, x) = v { env.put(q, &Ent::File(c.clone(), *x)); } }
+            let res = env.snapshot(out, &[]);
+            let ign = env.ignores(&[], &res.pre.disk);
+            oracle_snapshot(out, &res, &ign);
+        }
+        // from now on the directory is ignored
+        let by_file = r.chance(1, 3);
+        let base_ign: Vec<String> = if by_file {
+            let mut q = p(gi_dir);
+            q.push(".gitignore".into());
+            env.put(&q, &Ent::File(format!("{}\n", r.pick(gi_pats)).into_bytes(), false));
+            vec![]
+        } else { vec![r.pick(base_pats).to_string()] };
+        if r.chance(1, 8) { let mut sp = vec![p(dirp[0].as_str()), p("f")]; sp.sort(); env.set_sparse(out, &sp); }
+        let mut fresh = 0;
+        for _ in 0..4 {
+            let tracked: Vec<P> = env.states().into_iter().filter(|q| is_strict_prefix(&dirp, q)).collect();
+            for _ in 0..(if small { 2 } else { r.range(2, 5) }) {
+                if tracked.is_empty() { break; }
+                let disk = scan(&env.root);
+                let q = r.pick(&tracked).clone();
+                let parent_ok = (1..q.len()).all(|n| disk.get(&q[..n].to_vec()) == Some(&Ent::Dir));
+                let cur = if parent_ok { disk.get(&q).cloned() } else { None };
+                let k = r.below(12);
+                let lbl = match (k, cur) {
+                    (10, _) => {
+                        fresh += 1;
+                        let mut u = dirp.clone();
+                        u.push(format!("n{fresh}"));
+                        env.put(&u, &Ent::File(b"new\n".to_vec(), false));
+                        "new-ignored"
+                    }
+                    (11, _) => if r.chance(1, 3) { random_edit(&env, &mut r) } else { "noop" },
+                    (0 | 1 | 2, Some(Ent::File(..) | Ent::Link(_))) => {
+                        env.put(&q, &Ent::Dir);
+                        if r.chance(1, 3) { let mut u = q.clone(); u.push("u".into()); env.put(&u, &Ent::File(b"inner\n".to_vec(), false)); }
+                        "tracked->dir"
+                    }
+                    (3 | 4, Some(Ent::File(c, _))) if !c.is_empty() => {
+                        let mut c2 = c.clone();
+                        c2[0] = if c2[0] == b'z' { b'a' } else { c2[0] + 1 };
+                        env.overwrite_same_size(&q, &c2);
+                        "modify-same-size"
+                    }
+                    (5, Some(Ent::File(_, x))) => { env.chmod(&q, !x); "chmod" }
+                    (6 | 7, Some(Ent::File(..) | Ent::Link(_))) => { env.rm(&q); "delete" }
+                    (_, Some(Ent::File(..) | Ent::Link(_))) => { env.put(&q, &gen_ent(&mut r)); "replace" }
+                    // the path is a directory by now, or gone: mostly left alone, sometimes restored
+                    (0 | 1 | 2, _) => { env.put(&q, &gen_ent(&mut r)); "restore" }
+                    _ => "noop",
+                };
+                out.tally("family-edit", lbl);
+            }
+            let ignoring = r.chance(7, 8);
+            let bi: Vec<String> = if ignoring { base_ign.clone() } else { vec![] };
+            let res = env.snapshot(out, &bi);
+            let ign = env.ignores(&bi, &res.pre.disk);
+            oracle_snapshot(out, &res, &ign);
+            // the shape the family is after: below the ignored directory a tracked path is now a directory
+            // and a tracked path sorting after it differs from the tree (content, mode, kind, gone)
+            let dir_ignored = res.ign_set.contains(&dirp);
+            let below = |q: &&P| is_strict_prefix(&dirp, q) && res.pre.states.contains(*q);
+            let swapped: Vec<&P> = res.pre.tree.keys().filter(below).filter(|q| res.pre.disk.get(*q) == Some(&Ent::Dir)).collect();
+            let later = res.pre.tree.iter().filter(|(q, _)| below(q))
+                .any(|(q, v)| res.pre.disk.get(q) != Some(&v.on_disk()) && swapped.iter().any(|s| *s < q));
+            if dir_ignored && !swapped.is_empty() { out.tally("shape", "ignored-dir:tracked->dir"); }
+            if dir_ignored && later { out.tally("shape", "ignored-dir:tracked->dir+later-sibling-changed"); }
+            let changed = match &res.result { Ok((t, _)) => *t != res.pre.tree, Err(_) => true };
+            if changed { out.nontrivial((show_tree(&res.pre.tree), show_disk(&res.pre.disk), show_set(&res.ign_set), show_seq(&res.pre.sparse))); }
+            if res.result.is_err() { break; }
+        }
+    }
+    out.note(format!("{workspaces} workspaces of the family 'ignored directory full of tracked files' (4 snapshots each, 2-5 edits of the tracked paths per gap)"));
+}
+
 pub fn run(cfg: &Cfg, out: &mut Out) {
     let mut r = cfg.rng(23);
     directed(out);
+    ignored_dir_family(cfg, out);
     let workspaces = cfg.n(250, 1200);
     for w in 0..workspaces {
         let mut env = Env::new();
